@@ -1,5 +1,23 @@
+//! Polynomial-layer monitors: C07 (evaluation domains / FFT), C08 (univariate polynomial
+//! arithmetic), C17 (multilinear extensions and sparse multivariate polynomials).
 use monitor::*;
+use std::time::Instant;
+
+mod c07;
+mod c08;
+mod c17;
+mod fields;
+mod orc;
+
 fn main() {
     let args = Args::parse();
-    panic!("mon_poly does not serve property {} yet", args.prop);
+    let t0 = Instant::now();
+    let (items, rule): (Vec<Item>, &str) = match args.prop.as_str() {
+        "C07" => (c07::items(&args), c07::RULE),
+        "C08" => (c08::items(&args), c08::RULE),
+        "C17" => (c17::items(&args), c17::RULE),
+        p => panic!("mon_poly does not serve property {p}"),
+    };
+    let rep = run_items(&args, items);
+    finish(&args, "mon_poly", rule, rep, t0)
 }
